@@ -519,5 +519,28 @@ func (e *Engine) solveFile(o *Obl, file string) {
 		finish("discharged", "", "undecided ("+strings.Join(details, " ")+")")
 		return
 	}
+	// last resort: drop the quantified hypotheses (a weaker hypothesis set). unsat still discharges; sat gives a
+	// candidate counterexample that only a replay on the real code can confirm.
+	if b, err := os.ReadFile(file); err == nil {
+		var keep []string
+		for _, l := range strings.Split(string(b), "\n") {
+			if strings.HasPrefix(l, "(assert (forall ") || strings.HasPrefix(l, "(assert (exists ") {
+				continue
+			}
+			keep = append(keep, l)
+		}
+		qf := strings.TrimSuffix(file, ".smt2") + ".qf.smt2"
+		os.WriteFile(qf, []byte(strings.Join(keep, "\n")), 0o644)
+		r3 := runSolver("z3-new", qf, 6)
+		switch r3.status {
+		case "unsat":
+			finish("discharged", "z3-new(qf)", "")
+			return
+		case "sat":
+			os.WriteFile(file, []byte(strings.Join(keep, "\n")), 0o644)
+			finish("failed", "z3-new(qf)", "sat (candidate model after dropping quantified hypotheses; "+strings.Join(details, " ")+")")
+			return
+		}
+	}
 	finish("unknown", "", strings.Join(details, " "))
 }
